@@ -15,6 +15,18 @@ def num(v):
 
 
 def color_regs(rng, mode):
+    # a share of boundary colours: every component at an end of its range (kelvin 0 is the
+    # register's initial value), and black with kelvin 0 — raw [0, 0, 0, 0] — outright
+    k = rng.random()
+    if k < 0.25:
+        top = {'raw': (65535, 65535), 'rgb': (100, 100), 'logical': (360, 100)}[mode]
+        names = ('red', 'green', 'blue') if mode == 'rgb' else ('hue', 'saturation', 'brightness')
+        if k < 0.1:
+            vals = [0, 0, 0, 0]
+        else:
+            vals = [rng.choice([0, top[0]]), rng.choice([0, top[1]]), rng.choice([0, top[1]]),
+                    rng.choice([0, 2500, 9000])]
+        return dict(zip(names + ('kelvin',), vals))
     if mode == 'raw':
         return {'hue': rng.randrange(65536), 'saturation': rng.randrange(65536),
                 'brightness': rng.randrange(65536), 'kelvin': rng.choice([2500, 3500, 9000])}
